@@ -127,6 +127,9 @@ func (e *SpecEnv) ident(id *ast.Ident) (SV, error) {
 		if len(e.results) == 0 {
 			return SV{}, fmt.Errorf("result not available here")
 		}
+		if e.ifaceSig != nil && e.ifaceSig.Results().Len() > 0 {
+			return SV{e.results[0], e.ifaceSig.Results().At(0).Type()}, nil
+		}
 		return SV{e.results[0], e.fn.Signature.Results().At(0).Type()}, nil
 	}
 	if t, ok := e.bound[name]; ok {
@@ -660,6 +663,27 @@ func (e *SpecEnv) call(n *ast.CallExpr) (SV, error) {
 				}
 			}
 			return SV{}, fmt.Errorf("unchanged: no such field %s", spec)
+		case "unchanged_except":
+			// unchanged_except("Type.field", ref): that field has its old value in every object other than ref
+			bl, ok := n.Args[0].(*ast.BasicLit)
+			if !ok || len(n.Args) != 2 {
+				return SV{}, fmt.Errorf(`unchanged_except("Type.field", ref)`)
+			}
+			spec, _ := strconv.Unquote(bl.Value)
+			rv, err := e.eval(n.Args[1])
+			if err != nil {
+				return SV{}, err
+			}
+			for k, h1 := range e.st.heap {
+				if _, _, isF := fldParts(k); isF && heapKeyMatches(k, spec) {
+					if h0, ok := e.old.heap[k]; ok {
+						w.n++
+						xv := fmt.Sprintf("x_q%d", w.n)
+						return SV{T(fmt.Sprintf("(forall ((%s Int)) (=> (not (= %s %s)) (= (select %s %s) (select %s %s))))", xv, xv, rv.T.S, h1.S, xv, h0.S, xv), "Bool"), tBoolT}, nil
+					}
+				}
+			}
+			return SV{}, fmt.Errorf("unchanged_except: no such field %s", spec)
 		case "panicking":
 			if e.g.panicking {
 				return SV{T("true", "Bool"), tBoolT}, nil
